@@ -568,18 +568,23 @@ Proof.
   rewrite rd_some by exact Hl. cbn. f_equal. apply set_at_full. rewrite zeros_len. now apply firstn_len_le.
 Qed.
 
-(* bytes_from_hex: the C function's bytes when it fills the vector (no
-   whitespace in the input); the empty array when it refuses *)
+(* bytes_from_hex: exactly the bytes the C function decoded (it never decodes more than the len/2 it was
+   offered), the empty array when it refuses *)
 Lemma bytes_from_hex_eq chars :
+  (forall w, c_from_hex (length chars / 2) chars = Some w -> length w <= length chars / 2) ->
   cpp_bytes_from_hex c_from_hex chars =
   match c_from_hex (length chars / 2) chars with
-  | Some w => if length w =? length chars / 2 then w else set_at (zeros (length chars / 2)) 0 w
+  | Some w => w
   | None => []
   end.
 Proof.
-  unfold cpp_bytes_from_hex. destruct (c_from_hex (length chars / 2) chars) as [w|]; [|reflexivity].
-  destruct (length w =? length chars / 2) eqn:E; [|reflexivity].
-  apply Nat.eqb_eq in E. apply set_at_full. now rewrite zeros_len.
+  intros Hb. unfold cpp_bytes_from_hex. destruct (c_from_hex (length chars / 2) chars) as [w|] eqn:E; [|reflexivity].
+  specialize (Hb w eq_refl).
+  assert (G : forall (v : bytes) (w : bytes), length w <= length v -> firstn (length w) (set_at v 0 w) = w).
+  { intros v w0 H. rewrite <- (firstn_skipn (length w0) v) at 1.
+    rewrite set_at_0_full by (rewrite firstn_length; lia).
+    rewrite firstn_app, firstn_all, Nat.sub_diag, firstn_O, app_nil_r. reflexivity. }
+  apply G. now rewrite zeros_len.
 Qed.
 End HelpersP.
 
